@@ -68,7 +68,7 @@ func executeChild(raw json.RawMessage) obs {
 	os.WriteFile(inf, raw, 0o644)
 	self, _ := os.Executable()
 	cmd := exec.Command(self, "c04child", inf, outf)
-	cmd.Env = append(os.Environ(), "GORACE=halt_on_error=0 exitcode=0 log_path="+filepath.Join(dir, "race"))
+	cmd.Env = append(os.Environ(), "GORACE=halt_on_error=0 exitcode=0 atexit_sleep_ms=0 log_path="+filepath.Join(dir, "race"))
 	cmd.Stdout = io.Discard
 	var eb strings.Builder
 	cmd.Stderr = &eb
